@@ -204,6 +204,14 @@ theorem persists (E : Env) (s : PState) (f : Nat) (o : Obj) (a : Addr) (ops : Li
         intro e; simp [call, e] at hc'
       exact call_of_jump E _ f p.repl o (t1.trans ht) (by rw [t1]; exact hne) h1
 
+/-- "keeps holding … until reset", the part that is provable: `persists` under its `Untouched` hypothesis.
+    FULL STATEMENT (not provable, refuted in Findings/C01F.lean `not_holdsUntilOwnReset`): the mock of builder `b` keeps
+    holding under ANY operations of other builders, including their Reset after they were superseded on `f`.  Missing
+    here: histories in which another builder's guard of `f` is unpatched (KNOWN_FINDINGS C01-K2-foreign-reset). -/
+theorem holds_until_reset_partial (E : Env) (s : PState) (f : Nat) (o : Obj) (a : Addr) (ops : List Op) (h : Inv E s)
+    (hu : WellUsedHist E s ops) (hnt : Untouched E f s ops) (hc : call E s f = .enter o a) :
+    call E (run E s ops) f = .enter o a := persists E s f o a ops h hu hnt hc
+
 /-- non-vacuity of `persists`: a mock of function 1 survives a collection with no external roots, a mock and
     un-mock of function 0, and another collection -/
 example :
